@@ -268,4 +268,21 @@ def cases(tier):
             deadline_s=1500,
         )
     )
+    # the reordering is only switched on when every requested observable can be mapped back to register order
+    # or does not depend on it (a user-order target state, as in Fidelity, cannot) - shared with C33
+    from harness.c33 import reordering_vs_observables, COVERS_OBS
+
+    out.append(
+        Case(
+            "reordering_only_with_order_independent_observables",
+            reordering_vs_observables(1 if q else 2),
+            covers=COVERS_OBS,
+            bounds={"observables": "every subset of size <= %d of the 14 observable options" % (1 if q else 2), "optimize_qubit_ordering": "True/False"},
+            canaries=["entropy_is_fine"],
+            conc_samples=4,
+            weight=10,
+            max_paths=200000,
+            deadline_s=800,
+        )
+    )
     return out
